@@ -256,3 +256,22 @@ Fu") = Some (B "Man") /\ b64_decode (B "TWE") = None
   /\ fmtnum (VInt 9007199254740993) (B "9007199254740993") (B "%.1le") = FOut (B "9.0e+15")
   /\ fmtnum (VInt 17) (B "17") (B "%5d|") = FOut (B "%!d(string=   17)|") /\ fmtnum (VInt (-1)) (B "-1") (B "%x") = FOut (B "-1").
 Proof. vm_compute. repeat split; try reflexivity; eexists; repeat split; reflexivity. Qed.
+
+(* ================================================================== wrapper verbs (ModelVerbs.v) *)
+From Miller Require Import C15.ModelVerbs C15.ProofsVerbs.
+(* the verb is the function applied per selected field: entry i keeps its key; its value is the function of the old
+   value when the field is selected and the old value otherwise; the key sequence is unchanged *)
+Theorem C15_verb_is_function_per_field :
+  forall v r i k x, nth_error r i = Some (k, x) ->
+  nth_error (run_verb v r) i = Some (k, if verb_sel v k then verb_fun v x else x) /\ map fst (run_verb v r) = map fst r.
+Proof. exact run_verb_spec. Qed.
+Print Assumptions C15_verb_is_function_per_field.
+Theorem C15_verb_record_length : forall sel f r, List.length (map_values sel f r) = List.length r.
+Proof. exact map_values_length. Qed.
+Print Assumptions C15_verb_record_length.
+Example C15_nonvacuous_verbs :
+  run_verb (VSsub (Some [B "a"; B "c"]) (B ".") (B "X")) [(B "a", B "1.2.3"); (B "b", B "4.5"); (B "c", B "6")]
+    = [(B "a", B "1X2.3"); (B "b", B "4.5"); (B "c", B "6")]
+  /\ run_verb VUtf8ToLatin1 [(B "k", bs [195; 169]%N); (B "e", bs [226; 130; 172]%N)] = [(B "k", bs [233]%N); (B "e", B "(error)")]
+  /\ nth_error [(B "a", B "x"); (B "b", B "y")] 1 = Some (B "b", B "y").
+Proof. vm_compute. repeat split; reflexivity. Qed.
